@@ -106,6 +106,10 @@ package nat
 //@ func (m *Manager) DeallocateNAT
 //@   modifies m.allocations, m.pool, m.natLogger.buffer, m.natLogger.currentFile, m.natLogger.currentSize, m.natLogger.portBlockBuffer
 //@   ensures true
+// "a released block can be handed out again" without ever being held twice: the call that finds the
+// allocation takes it out of the table in the same critical section, so of two concurrent releases
+// of one subscriber only one goes on to decrement the pool counter
+//@   ensures lockedN(1, privKey in m.allocations) ==> unlockedN(1, privKey !in m.allocations)
 //@   sets relNAT = relNAT + 1
 
 //@ func (m *Manager) GetAllocation
